@@ -194,6 +194,9 @@ func (k *c12Sk) stmt(s ast.Stmt) {
 	case *ast.IfStmt:
 		k.ifStmt(x, "if ")
 	case *ast.DeferStmt:
+		if c12IsHook(x.Call) {
+			return // an instrumentation point is not part of the protocol
+		}
 		k.emit("defer")
 		k.call(x.Call)
 		k.emit("end")
@@ -519,6 +522,9 @@ func c12Between(list []ast.Stmt) string {
 			if ok && c12SelTail(sel.X) == "MutexLog" && sel.Sel.Name == "Add" {
 				continue
 			}
+			if c12IsHook(c) {
+				continue
+			}
 			if ok && c12SelTail(sel.X) == "MutexesMutex" && (sel.Sel.Name == "Lock" || sel.Sel.Name == "Unlock") {
 				continue
 			}
@@ -716,6 +722,16 @@ func c12ReleaseDeferred() ([]c12Fact, error) {
 		out = append(out, c12Fact{"no Lock of a local mutex found in Eval", "unknown"})
 	}
 	return out, nil
+}
+
+// c12IsHook recognises verifhook.At(…) (an empty function unless built with the tag verif).
+func c12IsHook(c *ast.CallExpr) bool {
+	sel, ok := c.Fun.(*ast.SelectorExpr)
+	if !ok || sel.Sel.Name != "At" {
+		return false
+	}
+	id, ok := sel.X.(*ast.Ident)
+	return ok && id.Name == "verifhook"
 }
 
 func c12LocalCall(c *ast.CallExpr, method string) string {
